@@ -673,3 +673,36 @@ def split_part(body, operand, sep):
     else:
         return None
     return 0 if kind == "RangeTo" else 1
+
+
+def moved_chain(body, operand, depth=8):
+    """Locals a value travels through by plain moves/copies from its defining call/assign to `operand` (inclusive)."""
+    chain = []
+    o = operand
+    for _ in range(depth):
+        p = op_place(o)
+        if p is None or p["proj"]:
+            break
+        l = p["local"]
+        chain.append(l)
+        ds = [d for d in body.defs().get(l, []) if d["kind"] != "mutcall"]
+        if len(ds) != 1 or ds[0]["kind"] != "assign" or ds[0]["stmt"]["rv"]["k"] != "use":
+            break
+        o = ds[0]["stmt"]["rv"]["op"]
+    return chain
+
+
+def mutated_in_place(body, locals_):
+    """Is any of `locals_` (owned values) mutably borrowed or the receiver of a mutating call anywhere in the body?
+    `let mut v = f(); g(&mut v); use(v)`: v is no longer f()'s result as it is."""
+    ls = set(locals_)
+    for bi, i, st in body.stmts():
+        if st["k"] == "assign" and st["rv"]["k"] == "ref" and st["rv"].get("mut") and st["rv"]["place"]["local"] in ls:
+            return (bi, st)
+        if st["k"] == "assign" and st["place"]["local"] in ls and st["place"]["proj"]:
+            return (bi, st)
+    for l in ls:
+        for d in body.defs().get(l, []):
+            if d["kind"] == "mutcall":
+                return (d["block"], None)
+    return None
